@@ -139,6 +139,9 @@ def features(case):
         if any(s["id"] not in used for s in w["steps"]):
             f.add("dangling-step")
         for s in w["steps"]:
+            if s["scatter"] and "wf" in s["run"] and any(
+                    len(o["src"]) == 1 and "/" not in o["src"][0] for o in s["run"]["wf"]["outputs"]):
+                f.add("scattered-subworkflow-passthrough")
             if s["scatter"] and s.get("method") == "nested_crossproduct":
                 f.add("nested-crossproduct")
             if len(s["scatter"]) > 1 and s.get("method") in (None, "dotproduct"):
@@ -172,6 +175,8 @@ def diagnose(c, o, clause):
         return "plain/" + e
     if clause == "output-differs":
         d = diffclass(c, o)
+        if "scattered-subworkflow-passthrough" in fs and d in ("elements-missing", "same-elements-different-nesting"):
+            return "scattered-subworkflow-passthrough"
         if "dup-source" in fs and d in ("elements-missing", "value-differs", "elements-differ"):
             return "dup-source-dropped"
         if "nested-crossproduct" in fs and d == "same-elements-different-nesting":
